@@ -3,8 +3,13 @@ import KrakenModel.Model.Health
 /- Driver for C23: replays healthcheck.Filter transcripts on the model and monitors the documented
    per-host hysteresis on what the implementation returned.
 
-   cfg fails=<int> passes=<int>                         raw FilterConfig (before applyDefaults)
-   op run <a0:1,a1:0,…|-> => <healthy sorted> <checked sorted>
+   cfg fails=<int> passes=<int> [timeout=<ms>]          raw FilterConfig (before applyDefaults)
+   op run <a0:1,a1:0,a2:t,…|-> => <healthy sorted> <checked sorted>     (t: the check blocks until
+                                                        the per-Run timeout — a failed check)
+   machine `hcm` (healthcheck.Monitor around the real filter, its loop gated by the harness):
+   op hosts <a0:1,…|->  => ok                  the host list's content and the check outcomes from now on
+   op tick              => <filter input sorted> <Monitor.Resolve() afterwards, sorted>   one loop iteration
+   op resolve           => <sorted>            Monitor.Resolve()
 -/
 open Driver KrakenModel.Health
 
@@ -19,7 +24,7 @@ def hostTok (h : Nat) : String := s!"a{h}"
 
 def entry? (t : String) : Option (Nat × Bool) :=
   match t.splitOn ":" with
-  | [a, b] => do pure ((← host? a), (← bool? b))
+  | [a, b] => do pure ((← host? a), (← (if b = "t" then some false else bool? b)))
   | _ => none
 
 def insertSorted (x : Nat) : List Nat → List Nat
@@ -41,6 +46,42 @@ def init (toks : List String) : Option St := do
 
 def spOf (s : St) (h : Nat) : Sp := ((s.sp.find? (·.1 == h)).map (·.2)).getD none
 
+/-- the documented automaton advanced by one `Run` over `r`, judged against the hosts the
+implementation reported healthy: (new automaton states, hosts seen, predicate failures) -/
+def judge (s : St) (r : Round) (implHealthy : List Nat) (active : Bool) : List (Nat × Sp) × List Nat × List String :=
+  let F := s.cfg.fails.toNat
+  let P := s.cfg.passes.toNat
+  let hosts := (dedup r.addrs ++ s.seen).eraseDups
+  let sp' := hosts.map fun h => (h, spStep F P (spOf s h) (evOf h r))
+  let pf : List String := if !active then [] else
+    (hosts.flatMap fun h =>
+      let e := evOf h r
+      let σ' := spStep F P (spOf s h) e
+      let want := spReported σ' e
+      let got := implHealthy.contains h
+      if want = got then []
+      else if want then
+        (match e, spOf s h with
+         | .single, _ => [s!"side=impl key=single-host-not-reported Run(\{{hostTok h}}) does not report the only listed host"]
+         | _, none =>
+           if h ∈ s.seen then [s!"side=impl key=rejoin-not-healthy {hostTok h} left the list and rejoined but is not reported healthy"]
+           else [s!"side=impl key=new-host-not-healthy {hostTok h} is listed for the first time but is not reported healthy"]
+         | _, some (true, k) => [s!"side=impl key=unhealthy-too-early {hostTok h} reported unhealthy after {k}+ consecutive failed checks, Fails={F}"]
+         | _, some (false, k) => [s!"side=impl key=healthy-too-late {hostTok h} still unhealthy after {k + 1} consecutive passed checks, Passes={P}"])
+      else
+        (match e, spOf s h with
+         | .absent, _ => [s!"side=impl key=reported-unlisted {hostTok h} is reported healthy but is not listed"]
+         | _, some (true, k) => [s!"side=impl key=unhealthy-too-late {hostTok h} still reported healthy after {k + 1} consecutive failed checks, Fails={F}"]
+         | _, some (false, k) => [s!"side=impl key=healthy-too-early {hostTok h} reported healthy again after {k}+ consecutive passed checks, Passes={P}"]
+         | _, none => [s!"side=impl key=unhealthy-too-late {hostTok h} reported healthy after its first check failed, Fails={F}"])) ++
+    (implHealthy.filter (fun h => h ∉ hosts)).map fun h => s!"side=impl key=reported-unlisted {hostTok h} is reported healthy but was never listed"
+  (sp', hosts, pf)
+
+def roundBranch (s : St) (addrs : List Nat) (out : List Nat) (timedOut : Bool) : String :=
+  let n := (dedup addrs).length
+  if n = 1 then "run.single" else if n = 0 then "run.empty" else
+    s!"run.{min n 3}.{if (dedup addrs).any (fun h => h ∈ s.seen ∧ (find s.m h).isNone) then "rejoin" else "plain"}.h{min out.length 3}{if timedOut then ".timeout" else ""}"
+
 def step (s : St) (kind : String) (args impl : List String) : Option (St × StepOut) :=
   if kind ≠ "op" then none else
   match args with
@@ -51,43 +92,51 @@ def step (s : St) (kind : String) (args impl : List String) : Option (St × Step
     let r : Round := ⟨addrs, oks⟩
     let (m', out, checked) := run s.cfg s.m addrs (oks.contains ·)
     let obs := [listTok ((sortNat out).map hostTok), listTok ((sortNat checked).map hostTok)]
-    -- monitors: the documented automaton, from the listed hosts and check outcomes only
-    let F := s.cfg.fails.toNat
-    let P := s.cfg.passes.toNat
-    let hosts := (dedup addrs ++ s.seen).eraseDups
-    let sp' := hosts.map fun h => (h, spStep F P (spOf s h) (evOf h r))
     let implHealthy := (impl.head?.map list?).getD [] |>.filterMap host?
     let active := s.cfg.fails ≥ 1 ∧ s.cfg.passes ≥ 1 ∧ impl.length = 2
-    let pf : List String := if !active then [] else
-      (hosts.flatMap fun h =>
-        let e := evOf h r
-        let σ' := spStep F P (spOf s h) e
-        let want := spReported σ' e
-        let got := implHealthy.contains h
-        if want = got then []
-        else if want then
-          (match e, spOf s h with
-           | .single, _ => [s!"side=impl key=single-host-not-reported Run(\{{hostTok h}}) does not report the only listed host"]
-           | _, none =>
-             if h ∈ s.seen then [s!"side=impl key=rejoin-not-healthy {hostTok h} left the list and rejoined but is not reported healthy"]
-             else [s!"side=impl key=new-host-not-healthy {hostTok h} is listed for the first time but is not reported healthy"]
-           | _, some (true, k) => [s!"side=impl key=unhealthy-too-early {hostTok h} reported unhealthy after {k}+ consecutive failed checks, Fails={F}"]
-           | _, some (false, k) => [s!"side=impl key=healthy-too-late {hostTok h} still unhealthy after {k + 1} consecutive passed checks, Passes={P}"])
-        else
-          (match e, spOf s h with
-           | .absent, _ => [s!"side=impl key=reported-unlisted {hostTok h} is reported healthy but is not listed"]
-           | _, some (true, k) => [s!"side=impl key=unhealthy-too-late {hostTok h} still reported healthy after {k + 1} consecutive failed checks, Fails={F}"]
-           | _, some (false, k) => [s!"side=impl key=healthy-too-early {hostTok h} reported healthy again after {k}+ consecutive passed checks, Passes={P}"]
-           | _, none => [s!"side=impl key=unhealthy-too-late {hostTok h} reported healthy after its first check failed, Fails={F}"])) ++
-      (implHealthy.filter (fun h => h ∉ hosts)).map fun h => s!"side=impl key=reported-unlisted {hostTok h} is reported healthy but was never listed"
-    let n := (dedup addrs).length
-    let br := if n = 1 then "run.single" else if n = 0 then "run.empty" else
-      s!"run.{min n 3}.{if (dedup addrs).any (fun h => h ∈ s.seen ∧ (find s.m h).isNone) then "rejoin" else "plain"}.h{min out.length 3}"
-    pure ({ s with m := m', sp := sp', seen := hosts }, { obs, branch := br, propfails := pf })
+    let (sp', hosts, pf) := judge s r implHealthy active
+    let timedOut := (list? lt).any (·.endsWith ":t") ∧ (dedup addrs).length ≠ 1
+    pure ({ s with m := m', sp := sp', seen := hosts }, { obs, branch := roundBranch s addrs out timedOut, propfails := pf })
   | _ => none
 
 def machine : Machine := { σ := St, name := "hc", init := init, step := step }
 
+/-! ### healthcheck.Monitor -/
+
+structure MSt where
+  base : St
+  addrs : List Nat := []
+  oks : List Nat := []
+  resolved : List Nat := []   -- what Monitor.Resolve() returns: the list at construction, then the last Run
+  started : Bool := false     -- NewMonitor has been called (the harness does so at the first tick/resolve)
+
+def mstep (ms : MSt) (kind : String) (args impl : List String) : Option (MSt × StepOut) :=
+  if kind ≠ "op" then none else
+  let s := ms.base
+  match args with
+  | ["hosts", lt] => do
+    let entries ← (list? lt).mapM entry?
+    let addrs := dedup (entries.map (·.1))
+    let oks := (entries.filter (·.2)).map (·.1)
+    pure ({ ms with addrs, oks }, { obs := ["ok"], branch := "hosts" })
+  | ["tick"] =>
+    let r : Round := ⟨ms.addrs, ms.oks⟩
+    let (m', out, _) := run s.cfg s.m ms.addrs (ms.oks.contains ·)
+    let implResolved := (impl.drop 1).head?.map list? |>.getD [] |>.filterMap host?
+    let active := s.cfg.fails ≥ 1 ∧ s.cfg.passes ≥ 1 ∧ impl.length = 2
+    let (sp', hosts, pf) := judge s r implResolved active
+    some ({ ms with base := { s with m := m', sp := sp', seen := hosts }, resolved := out, started := true },
+          { obs := [listTok ((sortNat ms.addrs).map hostTok), listTok ((sortNat out).map hostTok)],
+            branch := "tick." ++ roundBranch s ms.addrs out false, propfails := pf })
+  | ["resolve"] =>
+    -- until the first loop iteration the monitor reports the host list it was constructed with
+    let ms := if ms.started then ms else { ms with resolved := ms.addrs, started := true }
+    some (ms, { obs := [listTok ((sortNat ms.resolved).map hostTok)], branch := "resolve" })
+  | _ => none
+
+def monitorMachine : Machine :=
+  { σ := MSt, name := "hcm", init := fun toks => (init toks).map fun s => { base := s }, step := mstep }
+
 end C23
 
-def main (args : List String) : IO UInt32 := runMachines [C23.machine] args
+def main (args : List String) : IO UInt32 := runMachines [C23.machine, C23.monitorMachine] args
